@@ -263,6 +263,14 @@ func c13ListProperty(t *rapid.T) {
 		n.Id = id
 		nl.Nodes = append(nl.Nodes, n)
 	}
+	// node lists may repeat an identifier (AddNode does not prevent it): equality must still be an equivalence
+	if len(nl.Nodes) >= 2 && rapid.IntRange(0, 3).Draw(t, "dupids") == 0 {
+		nl.Nodes[len(nl.Nodes)-1].Id = nl.Nodes[0].Id
+		if rapid.Bool().Draw(t, "dupcontent") {
+			nl.Nodes[len(nl.Nodes)-1] = proto.Clone(nl.Nodes[0]).(*sbom.Node)
+		}
+		hx.Class("list_with_repeated_node_id")
+	}
 	seen := map[string]bool{}
 	for i := rapid.IntRange(0, 5).Draw(t, "ne"); i > 0; i-- {
 		e := &sbom.Edge{From: rapid.SampledFrom(ids).Draw(t, "from"), Type: sbom.Edge_Type(rapid.IntRange(0, 44).Draw(t, "ty")),
